@@ -6,6 +6,7 @@ require (
 	github.com/SKAARHOJ/rawpanel-lib v0.0.0
 	github.com/s00500/env_logger v0.1.29
 	github.com/sirupsen/logrus v1.9.3
+	google.golang.org/protobuf v1.34.1
 )
 
 require (
@@ -14,7 +15,6 @@ require (
 	github.com/mattn/go-isatty v0.0.20 // indirect
 	go.uber.org/atomic v1.11.0 // indirect
 	golang.org/x/sys v0.20.0 // indirect
-	google.golang.org/protobuf v1.34.1 // indirect
 )
 
 replace github.com/SKAARHOJ/rawpanel-lib => /repo
